@@ -618,7 +618,11 @@ class OutputSchemaBuilder(
         def resolve(obj, _):
             return partial_serialize(getattr(obj, field_name))
 
-        factory = self.visit_with_conv(field.type, field.serialization)
+        # None of a none_as_undefined field is resolved as null, like Undefined
+        factory = self.visit_with_conv(
+            Optional[field.type] if field.none_as_undefined else field.type,
+            field.serialization,
+        )
         field_schema = get_field_schema(tp, field)
         return lambda: graphql.GraphQLField(
             factory.type,
